@@ -34,6 +34,10 @@ func init() {
 				Doc: "Remove builds a new mux; whatever registers on the container's mux must be replayed onto it, otherwise that kind of registration vanishes after any Remove."},
 			{ID: "C11.i", Template: "T-LOCK", Required: true, Run: ruleC10c,
 				Doc: "Registration operations must be able to run after any request: every lock taken on the request path is released on all exits including panics raised by user code that runs under it (route conditions, custom routers) - same obligations as C10.c. A leaked read lock blocks the next Add/Remove forever, so the container no longer reaches the state a fresh one would have."},
+			{ID: "C11.j", Template: "T-GUARD", Required: true, Run: rulePatternNonEmpty,
+				Doc: "'Adding WebServices never panics': a computed ServeMux pattern is registered only where the very value it is trimmed from was found different from \"\" and \"/\". Testing another expression (the whole root path instead of its fixed prefix) lets /{tenant}/items through with an empty pattern, on which http.ServeMux panics - in Add, or later in Remove's rebuild."},
+			{ID: "C11.k", Template: "T-SIBLING", Required: true, Run: ruleBothSidesNormalised,
+				Doc: "Registration-time equalities (duplicate root, pattern already mapped, route to remove) compare values that went through the same rewriting functions on both sides. Trimming only the argument of RemoveRoute makes a route whose stored Path ends in '/' unremovable."},
 		},
 	})
 }
